@@ -150,6 +150,82 @@ func rangeLowered(s boundSite) bool {
 	return edgeDominates(hb, 0, s.ins.Block())
 }
 
+// submatchRange: base = R.FindStringSubmatch(x), index = induction value of the
+// lowered range over R.SubexpNames() (same R), and the site is dominated by the
+// non-nil edge of a test of base against nil.
+func submatchRange(s boundSite) bool {
+	bc, ok := s.base.(*ssa.Call)
+	if !ok || bc.Common().StaticCallee() == nil || bc.Common().StaticCallee().RelString(nil) != "(*regexp.Regexp).FindStringSubmatch" {
+		return false
+	}
+	bo, ok := s.idx.(*ssa.BinOp)
+	if !ok || bo.Op != token.ADD {
+		return false
+	}
+	if _, isPhi := bo.X.(*ssa.Phi); !isPhi {
+		return false
+	}
+	if c, ok := bo.Y.(*ssa.Const); !ok || c.Value == nil || c.Value.ExactString() != "1" {
+		return false
+	}
+	hb := bo.Block()
+	ifi, ok := hb.Instrs[len(hb.Instrs)-1].(*ssa.If)
+	if !ok {
+		return false
+	}
+	cmp, ok := ifi.Cond.(*ssa.BinOp)
+	if !ok || cmp.Op != token.LSS || cmp.X != ssa.Value(bo) {
+		return false
+	}
+	lc, ok := cmp.Y.(*ssa.Call)
+	if !ok {
+		return false
+	}
+	if b, ok := lc.Common().Value.(*ssa.Builtin); !ok || b.Name() != "len" {
+		return false
+	}
+	nc, ok := lc.Common().Args[0].(*ssa.Call)
+	if !ok || nc.Common().StaticCallee() == nil || nc.Common().StaticCallee().RelString(nil) != "(*regexp.Regexp).SubexpNames" {
+		return false
+	}
+	if !sameAccess(nc.Common().Args[0], bc.Common().Args[0]) {
+		return false
+	}
+	if !edgeDominates(hb, 0, s.ins.Block()) {
+		return false
+	}
+	// nil test of the match
+	for _, b := range s.fn.Blocks {
+		ifn, ok := b.Instrs[len(b.Instrs)-1].(*ssa.If)
+		if !ok {
+			continue
+		}
+		c, ok := ifn.Cond.(*ssa.BinOp)
+		if !ok || (c.Op != token.EQL && c.Op != token.NEQ) {
+			continue
+		}
+		var other ssa.Value
+		if c.X == s.base {
+			other = c.Y
+		} else if c.Y == s.base {
+			other = c.X
+		} else {
+			continue
+		}
+		if k, ok := other.(*ssa.Const); !ok || !k.IsNil() {
+			continue
+		}
+		nonNilEdge := 1
+		if c.Op == token.NEQ {
+			nonNilEdge = 0
+		}
+		if edgeDominates(b, nonNilEdge, s.ins.Block()) {
+			return true
+		}
+	}
+	return false
+}
+
 // rootsOf collects the root slice/string values the base derives from.
 func rootsOf(v ssa.Value, seen map[ssa.Value]bool, out *[]ssa.Value) {
 	if seen[v] {
@@ -470,6 +546,7 @@ func rulePAN3(p *Program) *RuleResult {
 	r := newResult("PAN3")
 	fns := apiRepoFuncs(p, r)
 	rg := regexGlobals(p)
+	pan3Regex = rg
 	r.count("functions", len(fns))
 	r.count("regex_globals", len(rg))
 	for _, fn := range fns {
@@ -481,6 +558,143 @@ func rulePAN3(p *Program) *RuleResult {
 	r.floor("functions", 250)
 	r.floor("sites", 200)
 	return r
+}
+
+// pan3Scoped: the PAN3 obligations of the functions declared in the given
+// files / directories (path prefixes relative to the repository), whether or
+// not they are reachable from the FHIRPath API.
+func pan3Scoped(p *Program, prefixes []string, minSites int) *RuleResult {
+	r := newResult("PAN3")
+	rg := regexGlobals(p)
+	pan3Regex = rg
+	for _, fn := range p.RepoFuncs() {
+		if len(fn.Blocks) == 0 {
+			continue
+		}
+		pos := p.pos(fn.Pos())
+		in := false
+		for _, pre := range prefixes {
+			if strings.HasPrefix(pos, pre) {
+				in = true
+			}
+		}
+		if !in {
+			continue
+		}
+		r.count("functions", 1)
+		for _, s := range boundSites(fn) {
+			r.count("sites", 1)
+			pan3Site(p, r, s, rg)
+		}
+	}
+	r.floor("sites", minSites)
+	return r
+}
+
+func rulePAN3Strings(p *Program) *RuleResult {
+	return pan3Scoped(p, []string{"fhirpath/internal/funcs/impl/strings.go"}, 10)
+}
+
+func rulePAN3Refs(p *Program) *RuleResult {
+	return pan3Scoped(p, []string{"internal/element/reference/", "internal/element/canonical/", "internal/resource/identity.go", "internal/resource/canonical_identity.go"}, 5)
+}
+
+// capturedCell: the local cell of the enclosing function a free variable is bound to.
+func capturedCell(fv *ssa.FreeVar) *ssa.Alloc {
+	fn := fv.Parent()
+	par := fn.Parent()
+	if par == nil {
+		return nil
+	}
+	idx := -1
+	for i, f := range fn.FreeVars {
+		if f == fv {
+			idx = i
+		}
+	}
+	for _, b := range par.Blocks {
+		for _, ins := range b.Instrs {
+			if mc, ok := ins.(*ssa.MakeClosure); ok && mc.Fn == ssa.Value(fn) && idx >= 0 && idx < len(mc.Bindings) {
+				al, _ := mc.Bindings[idx].(*ssa.Alloc)
+				return al
+			}
+		}
+	}
+	return nil
+}
+
+func storesTo(al *ssa.Alloc) int {
+	n := 0
+	if al.Referrers() == nil {
+		return 0
+	}
+	for _, ref := range *al.Referrers() {
+		if st, ok := ref.(*ssa.Store); ok && st.Addr == ssa.Value(al) {
+			n++
+		}
+	}
+	return n
+}
+
+// pan3Regex: constant patterns of the package-level regexps (set by the PAN3 entry points).
+var pan3Regex map[*ssa.Global]string
+
+// sameStringValue: two SSA values denote the same string (same access path, or
+// loads of one local cell that is written exactly once).
+func sameStringValue(a, b ssa.Value) bool {
+	if sameAccess(a, b) {
+		return true
+	}
+	la, ok1 := a.(*ssa.UnOp)
+	lb, ok2 := b.(*ssa.UnOp)
+	if !ok1 || !ok2 || la.X != lb.X {
+		return false
+	}
+	if _, ok := la.X.(*ssa.Alloc); !ok {
+		return false
+	}
+	for _, v := range sameLoads(la.Parent(), la) {
+		if v == ssa.Value(lb) {
+			return true
+		}
+	}
+	return false
+}
+
+// captureMandatory: capture group n takes part in every match of the pattern
+// (it is not below an optional, starred, alternative or {0,…} node).
+func captureMandatory(pat string, n int) bool {
+	re, err := syntax.Parse(pat, syntax.Perl)
+	if err != nil {
+		return false
+	}
+	if n == 0 {
+		return true
+	}
+	var walk func(r *syntax.Regexp) bool
+	walk = func(r *syntax.Regexp) bool {
+		switch r.Op {
+		case syntax.OpCapture:
+			if r.Cap == n {
+				return true
+			}
+			return walk(r.Sub[0])
+		case syntax.OpConcat:
+			for _, s := range r.Sub {
+				if walk(s) {
+					return true
+				}
+			}
+		case syntax.OpPlus:
+			return walk(r.Sub[0])
+		case syntax.OpRepeat:
+			if r.Min >= 1 {
+				return walk(r.Sub[0])
+			}
+		}
+		return false
+	}
+	return walk(re)
 }
 
 func siteDescr(s boundSite) string {
@@ -541,6 +755,13 @@ func pan3Site(p *Program, r *RuleResult, s boundSite, rg map[*ssa.Global]string)
 	if s.kind == "index" && rangeLowered(s) {
 		r.count("range_lowered", 1)
 		r.ok(key, desc, pos, "induction value of the lowered range loop over the same operand", false)
+		return
+	}
+	// D3b: submatches of a regexp indexed by the range index over the same regexp's
+	// SubexpNames(), under a dominating nil test of the match
+	if s.kind == "index" && submatchRange(s) {
+		r.count("submatch_range", 1)
+		r.ok(key, desc, pos, "index ranges over SubexpNames() of the regexp whose non-nil submatch slice (same length) is indexed; the nil match is excluded by a dominating test", true)
 		return
 	}
 	// D4/D5: hypothesis-driven SCCP over the length classes of the root values
@@ -748,6 +969,20 @@ func valueWithinLen(s boundSite, v ssa.Value) (upper, lower bool) {
 	}
 	if isLenOf(idx, s.base) {
 		return true, true
+	}
+	// re.FindStringSubmatchIndex(base)[2k], [2k+1] for a capture group that takes part
+	// in every match of the (constant) pattern: a byte offset within base
+	if ld, ok := idx.(*ssa.UnOp); ok && ld.Op == token.MUL {
+		if ia, ok := ld.X.(*ssa.IndexAddr); ok {
+			if k, ok := ia.Index.(*ssa.Const); ok && k.Value != nil {
+				if c, ok := ia.X.(*ssa.Call); ok && c.Common().StaticCallee() != nil && c.Common().StaticCallee().RelString(nil) == "(*regexp.Regexp).FindStringSubmatchIndex" {
+					kv, _ := constant.Int64Val(k.Value)
+					if pat, ok := regexOfValue(c.Common().Args[0], pan3Regex); ok && sameStringValue(c.Common().Args[1], s.base) && captureMandatory(pat, int(kv)/2) {
+						return true, true
+					}
+				}
+			}
+		}
 	}
 	// strings.Index*(base, …) is -1 or a byte offset within base
 	if c, ok := idx.(*ssa.Call); ok {
@@ -1000,8 +1235,54 @@ func sameLoads(fn *ssa.Function, root ssa.Value) []ssa.Value {
 	if !ok || ld.Op != token.MUL {
 		return nil
 	}
-	switch ld.X.(type) {
+	switch cell := ld.X.(type) {
 	case *ssa.FieldAddr, *ssa.IndexAddr:
+	case *ssa.Alloc:
+		// a local cell written exactly once (a spilled parameter or variable whose
+		// address only flows into fresh allocations): every load reads that value
+		if cell.Referrers() == nil || !onlyFreshEscapes(cell, 0) {
+			return nil
+		}
+		nst := 0
+		var loads []ssa.Value
+		for _, ref := range *cell.Referrers() {
+			switch x := ref.(type) {
+			case *ssa.Store:
+				if x.Addr == ssa.Value(cell) {
+					nst++
+				}
+			case *ssa.UnOp:
+				if x != ld && x.Op == token.MUL {
+					loads = append(loads, x)
+				}
+			}
+		}
+		if nst != 1 {
+			return nil
+		}
+		return loads
+	case *ssa.FreeVar:
+		// a captured variable the closure only reads: loads within one activation of
+		// the closure see one value when the enclosing function writes the cell once
+		if cell.Referrers() == nil {
+			return nil
+		}
+		var loads []ssa.Value
+		for _, ref := range *cell.Referrers() {
+			switch x := ref.(type) {
+			case *ssa.UnOp:
+				if x != ld && x.Op == token.MUL {
+					loads = append(loads, x)
+				}
+			case *ssa.DebugRef:
+			default:
+				return nil
+			}
+		}
+		if al := capturedCell(cell); al == nil || storesTo(al) != 1 || !onlyFreshEscapes(al, 0) {
+			return nil
+		}
+		return loads
 	default:
 		return nil
 	}
